@@ -575,6 +575,11 @@ func judgeConc(p *plan.SchedPlan, fresh, hist, conc *passResult) []Finding {
 
 var policies = []string{"back-to-back", "uniform", "uniform", "window", "dense", "rr", "lockstep", "syncgap"}
 
+// panicky: whether generated evaluators may get a hook that panics on some
+// values (C12 plans only: C13 makes no claim about state after a panic in
+// user code).
+var panicky bool
+
 func genObj(r *plan.Rand, uniq string, data []DatumSpec, allowFilter bool) (ObjSpec, int) {
 	di := r.Intn(len(data))
 	for try := 0; try < 4 && (data[di].Gen == "nil" || data[di].Gen == "scalar"); try++ {
@@ -590,6 +595,9 @@ func genObj(r *plan.Rand, uniq string, data []DatumSpec, allowFilter bool) (ObjS
 	}
 	if r.Chance(0.3) {
 		opts.Hook = []string{"identity", "unwrap", "poison"}[r.Intn(3)]
+		if panicky && r.Chance(0.3) {
+			opts.Hook = "panicky"
+		}
 	}
 	if r.Chance(0.12) {
 		// a parse budget: mostly generous, sometimes too small (creation then
@@ -640,6 +648,7 @@ func GenSchedPlan(seed uint64, idx int, prop string) *plan.SchedPlan {
 	}
 	r := plan.New(plan.Mix(seed, uint64(idx)+salt<<20))
 	p := &plan.SchedPlan{Engine: "simsched", Property: prop, Build: "plain", Seed: seed, Index: idx, Policy: "sequential"}
+	panicky = prop == "C12"
 	uniq := fmt.Sprintf("-u%x", plan.Mix(seed, uint64(idx))&0xffffff)
 	k := 1
 	if prop == "C12" {
